@@ -152,7 +152,9 @@ QStringList QXmppVCardManager::discoveryFeatures() const
 
 bool QXmppVCardManager::handleStanza(const QDomElement &element)
 {
-    if (element.tagName() == u"iq" && QXmppVCardIq::isVCard(element)) {
+    // vCard requests (get/set) are not served here: leave them to the fallback, which answers them with an error
+    const auto iqType = element.attribute(u"type"_s);
+    if (element.tagName() == u"iq" && QXmppVCardIq::isVCard(element) && iqType != u"get" && iqType != u"set") {
         QXmppVCardIq vCardIq;
         vCardIq.parse(element);
 
